@@ -494,16 +494,33 @@ pub struct G<'a> {
     ivar: bool,
     comps: bool,
     incs: bool,
+    /// avoid the constructs that usually end a render with an error
+    clean: bool,
 }
 
 const STR_LITS: [&str; 8] = ["\"ab\"", "\"Hello\"", "\" x \"", "\"a,b,,c\"", "\"<i>\"", "\"42\"", "\"\"", "\"l1\\nl2\""];
 
 impl<'a> G<'a> {
     pub fn new(rng: &'a mut Rng, comps: bool, incs: bool) -> Self {
-        G { rng, loops: 0, ivar: false, comps, incs }
+        G { rng, loops: 0, ivar: false, comps, incs, clean: false }
     }
     fn pick<'b>(&mut self, xs: &[&'b str]) -> &'b str {
         xs[self.rng.below(xs.len())]
+    }
+    /// `good` in clean mode, any of `good` and `bad` otherwise
+    fn pick2<'b>(&mut self, good: &[&'b str], bad: &[&'b str]) -> &'b str {
+        let n = if self.clean { good.len() } else { good.len() + bad.len() };
+        let k = self.rng.below(n);
+        if k < good.len() { good[k] } else { bad[k - good.len()] }
+    }
+    /// a divisor: a non-zero literal in clean mode
+    fn divisor(&mut self, ty: Ty, d: u32) -> String {
+        if self.clean {
+            let k = self.rng.range(1, 9);
+            if self.rng.chance(1, 5) { format!("(-{k})") } else if ty == Ty::Float && self.rng.chance(1, 2) { format!("{k}.5") } else { format!("{k}") }
+        } else {
+            self.e(ty, d)
+        }
     }
     fn int_atom(&mut self) -> String {
         match self.rng.below(10) {
@@ -548,18 +565,25 @@ impl<'a> G<'a> {
                     4 => format!("({} + {})", self.e(Ty::Int, d1), self.e(Ty::Int, d1)),
                     5 => format!("({} - {})", self.e(Ty::Int, d1), self.e(Ty::Int, d1)),
                     6 => format!("({} * {})", self.e(Ty::Int, d1), self.e(Ty::Int, d1)),
-                    7 => format!("({} // {})", self.e(Ty::Int, d1), self.e(Ty::Int, d1)),
-                    8 => format!("({} % {})", self.e(Ty::Int, d1), self.e(Ty::Int, d1)),
+                    7 => format!("({} // {})", self.e(Ty::Int, d1), self.divisor(Ty::Int, d1)),
+                    8 => format!("({} % {})", self.e(Ty::Int, d1), self.divisor(Ty::Int, d1)),
                     9 => format!("({} ** {})", self.e(Ty::Int, d1), self.rng.range(0, 5)),
                     10 => format!("(-{})", self.int_atom()),
                     11 => format!("(-({}))", self.e(Ty::Int, d1)),
                     12 => format!("({} | length)", self.e_of(&[Ty::Str, Ty::ArrInt, Ty::ArrStr, Ty::MapV, Ty::Rows], d1)),
-                    13 => format!("({} | {})", self.e(Ty::ArrInt, d1), self.pick(&["first", "last", "nth(n=1)", "nth(n=0)", "nth(n=7)"])),
+                    13 => format!("({} | {})", self.e(Ty::ArrInt, d1), self.pick(&["first", "last", "nth(n=1)", "nth(n=0)", "nth(n=7)"]) ),
                     14 => format!("({} | wordcount)", self.e(Ty::Str, d1)),
-                    15 => format!("({} | int)", self.pick(&["\"42\"", "\" -7 \"", "\"+3\"", "\"abc\"", "\"\"", "2.0", "n", "f", "yes"])),
-                    16 => format!("(\"{}\" | int(base={}))", self.pick(&["ff", "0x1F", "101", "0b101", "0o17", "z", "-10"]), self.pick(&["16", "2", "8", "36", "10", "1", "37"])),
+                    15 => format!("({} | int)", self.pick2(&["\"42\"", "\" -7 \"", "\"+3\"", "2.0", "n", "m"], &["\"abc\"", "\"\"", "f", "yes"])),
+                    16 => {
+                        let (lit, base) = if self.clean {
+                            *self.rng.pick(&[("ff", "16"), ("0x1F", "16"), ("101", "2"), ("0b101", "2"), ("0o17", "8"), ("z", "36"), ("-10", "10"), ("101", "16")])
+                        } else {
+                            (self.pick(&["ff", "0x1F", "101", "0b101", "0o17", "z", "-10"]), self.pick(&["16", "2", "8", "36", "10", "1", "37"]))
+                        };
+                        format!("(\"{lit}\" | int(base={base}))")
+                    }
                     17 => format!("({} | abs)", self.e(Ty::Int, d1)),
-                    18 => format!("{}[{}]", self.pick(&["xs", "[4, 5, 6]", "range(end=4)"]), self.rng.range(-2, 3)),
+                    18 => format!("{}[{}]", self.pick2(&["[4, 5, 6]", "range(end=4)"], &["xs"]), self.rng.range(-2, 2)),
                     19 => format!("({} if {} else {})", self.e(Ty::Int, d1), self.e(Ty::Bool, d1), self.e(Ty::Int, d1)),
                     20 => "rows[0].id".into(),
                     21 => format!("({} | default(value={}))", self.pick(&["u", "n", "nil", "mp.zz", "rows[0].nope"]), self.rng.range(0, 9)),
@@ -573,17 +597,17 @@ impl<'a> G<'a> {
                 }
                 match self.rng.below(16) {
                     0..=2 => self.float_atom(),
-                    3 => format!("({} / {})", self.num(d1), self.num(d1)),
+                    3 => { let t = if self.rng.chance(1, 2) { Ty::Int } else { Ty::Float }; format!("({} / {})", self.num(d1), self.divisor(t, d1)) }
                     4 => format!("({} + {})", self.e(Ty::Float, d1), self.num(d1)),
                     5 => format!("({} - {})", self.num(d1), self.e(Ty::Float, d1)),
                     6 => format!("({} * {})", self.e(Ty::Float, d1), self.num(d1)),
-                    7 => format!("({} // {})", self.e(Ty::Float, d1), self.num(d1)),
-                    8 => format!("({} % {})", self.e(Ty::Float, d1), self.num(d1)),
+                    7 => format!("({} // {})", self.e(Ty::Float, d1), self.divisor(Ty::Float, d1)),
+                    8 => format!("({} % {})", self.e(Ty::Float, d1), self.divisor(Ty::Float, d1)),
                     9 => format!("(-{})", self.float_atom()),
                     10 => format!("({} | float)", self.num(d1)),
                     11 => format!("({} | round)", self.num(d1)),
                     12 => format!("({} | round(precision={}))", self.e(Ty::Float, d1), self.rng.range(0, 4)),
-                    13 => format!("({} | round(method=\"{}\"{}))", self.e(Ty::Float, d1), self.pick(&["ceil", "floor", "ceil", "floor", "up"]),
+                    13 => format!("({} | round(method=\"{}\"{}))", self.e(Ty::Float, d1), self.pick2(&["ceil", "floor"], &["up"]),
                         if self.rng.chance(1, 2) { ", precision=1" } else { "" }),
                     14 => format!("({} | abs)", self.e(Ty::Float, d1)),
                     _ => "rows[0].score".into(),
@@ -594,23 +618,24 @@ impl<'a> G<'a> {
                     return self.pick(&["yes", "no", "true", "false"]).into();
                 }
                 let cmp = self.pick(&["<", "<=", ">", ">=", "==", "!="]);
+                let eqcmp = self.pick2(&["==", "!="], &["<", ">="]);
                 match self.rng.below(22) {
                     0 => self.pick(&["yes", "no", "true", "false"]).into(),
                     1..=3 => format!("({} {cmp} {})", self.num(d1), self.num(d1)),
                     4 => format!("({} {cmp} {})", self.e(Ty::Str, d1), self.e(Ty::Str, d1)),
-                    5 => format!("({} {cmp} {})", self.any(d1), self.any(d1)),
+                    5 => format!("({} {eqcmp} {})", self.any(d1), self.any(d1)),
                     6 => format!("({} {} {})", self.e(Ty::ArrInt, d1), self.pick(&["==", "!=", "<", ">="]), self.e(Ty::ArrInt, d1)),
                     7 => format!("({} {} {})", self.e(Ty::Int, d1), self.pick(&["in", "not in"]), self.e_of(&[Ty::ArrInt, Ty::ArrNum], d1)),
                     8 => format!("({} {} {})", self.kw_str(), self.pick(&["in", "not in"]), self.e_of(&[Ty::Str, Ty::ArrStr, Ty::MapV], d1)),
-                    9 => format!("({} in {})", self.any(d1), self.any(d1)),
+                    9 => format!("({} in {})", self.any(d1), if self.clean { self.e_of(&[Ty::Str, Ty::ArrInt, Ty::ArrStr, Ty::MapV, Ty::ArrNum], d1) } else { self.any(d1) }),
                     10 => format!("(not {})", self.e(Ty::Bool, d1)),
                     11 => format!("({} and {})", self.e(Ty::Bool, d1), self.e(Ty::Bool, d1)),
                     12 => format!("({} or {})", self.e(Ty::Bool, d1), self.e(Ty::Bool, d1)),
-                    13 => format!("({} is {})", self.e(Ty::Int, d1), self.pick(&["odd", "even", "divisible_by(divisor=3)", "divisible_by(divisor=0)", "divisible_by(divisor=-1)", "divisible_by(divisor=2.0)"])),
+                    13 => format!("({} is {})", self.e(Ty::Int, d1), self.pick2(&["odd", "even", "divisible_by(divisor=3)", "divisible_by(divisor=0)", "divisible_by(divisor=-1)", "divisible_by(divisor=2.0)"], &["divisible_by(divisor=1.5)", "divisible_by"])),
                     14 => format!("({} is {}(pat={}))", self.e(Ty::Str, d1), self.pick(&["starting_with", "ending_with", "containing"]), self.kw_str()),
                     15 => format!("({} is containing(pat={}))", self.e_of(&[Ty::ArrInt, Ty::ArrStr, Ty::MapV, Ty::ArrNum], d1), self.pick(&["1", "\"a\"", "2.0", "\"fig\"", "nil", "xs"])),
                     16 | 17 => format!("({} is {}{})", self.any(d1), if self.rng.chance(1, 4) { "not " } else { "" },
-                        self.pick(&["string", "number", "integer", "float", "map", "array", "bool", "none", "iterable", "defined", "undefined", "odd"])),
+                        self.pick2(&["string", "number", "integer", "float", "map", "array", "bool", "none", "iterable", "defined", "undefined"], &["odd"])),
                     18 => format!("({} is {})", self.pick(&["u", "nil", "mp.a", "mp.zz", "rows[0].tag", "one?.q?.r"]), self.pick(&["defined", "undefined", "none"])),
                     19 => format!("({} == {})", self.e(Ty::MapV, d1), self.e(Ty::MapV, d1)),
                     20 => format!("({} {cmp} {})", self.e(Ty::Float, d1), self.e(Ty::Int, d1)),
@@ -649,7 +674,7 @@ impl<'a> G<'a> {
                     21 => format!("({} | default(value={}{}))", self.pick(&["u", "e", "nil", "s", "mp.b"]), self.kw_str(), if self.rng.chance(1, 2) { ", boolean=true" } else { "" }),
                     22 => format!("{}", self.pick(&["rows[0].name", "mp.b", "one.k", "ws[0]", "ws[-1]", "mp[\"b\"]"])),
                     23 => format!("({} | safe | {})", self.e(Ty::Str, d1), self.pick(&["upper", "trim", "str", "safe", "escape_html"])),
-                    24 => format!("({} | {})", self.any(d1), self.pick(&["upper", "trim", "wordcount", "capitalize", "split(pat=\",\")", "first", "keys", "abs", "round", "length", "reverse"])),
+                    24 if !self.clean => format!("({} | {})", self.any(d1), self.pick(&["upper", "trim", "wordcount", "capitalize", "split(pat=\",\")", "first", "keys", "abs", "round", "length", "reverse"])),
                     25 => format!("(bs | {})", self.pick(&["str", "safe", "length", "reverse"])),
                     26 if self.comps => self.call(d1),
                     27 => format!("({} | str | {})", self.e(Ty::Float, d1), self.pick(&["length", "upper", "reverse"])),
@@ -663,13 +688,22 @@ impl<'a> G<'a> {
                 match self.rng.below(14) {
                     0..=1 => self.e(Ty::ArrInt, 0),
                     2 => format!("range(end={})", self.e(Ty::Int, d1)),
-                    3 => format!("range(start={}, end={}, step_by={})", self.rng.range(-3, 5), self.rng.range(-3, 9), self.pick(&["1", "2", "-1", "-2", "0", "3"])),
+                    3 => {
+                        if self.clean {
+                            let a = self.rng.range(-3, 5);
+                            let len = self.rng.range(0, 6);
+                            if self.rng.chance(1, 2) { format!("range(start={a}, end={}, step_by={})", a + len, self.pick(&["1", "2", "3"])) }
+                            else { format!("range(start={}, end={a}, step_by={})", a + len, self.pick(&["-1", "-2"])) }
+                        } else {
+                            format!("range(start={}, end={}, step_by={})", self.rng.range(-3, 5), self.rng.range(-3, 9), self.pick(&["1", "2", "-1", "-2", "0", "3"]))
+                        }
+                    }
                     4 => format!("({} | {})", self.e(Ty::ArrInt, d1), self.pick(&["reverse", "sort", "unique"])),
                     5 => format!("[{}, {}]", self.e(Ty::Int, d1), self.e(Ty::Int, d1)),
                     6 => format!("[...{}, {}]", self.e(Ty::ArrInt, d1), self.e(Ty::Int, d1)),
                     7 => format!("[x * {} for x in {}{}]", self.rng.range(1, 3), self.e(Ty::ArrInt, d1), self.pick(&["", " if x is odd", " if x > 1"])),
                     8 => format!("{}[{}:{}]", self.pick(&["xs", "range(end=6)"]), self.pick(&["", "1", "-2"]), self.pick(&["", "2", "-1"])),
-                    9 => format!("{}[::{}]", self.pick(&["xs", "range(end=6)"]), self.pick(&["-1", "2", "0"])),
+                    9 => format!("{}[::{}]", self.pick(&["xs", "range(end=6)"]), self.pick2(&["-1", "2"], &["0"])),
                     10 => "[r.id for r in rows | sort(attribute=\"score\")]".into(),
                     11 => "mp.c".into(),
                     12 => format!("({} if {} else {})", self.e(Ty::ArrInt, d1), self.e(Ty::Bool, d1), self.e(Ty::ArrInt, d1)),
@@ -699,7 +733,7 @@ impl<'a> G<'a> {
             }
             Ty::Rows => match self.rng.below(6) {
                 0..=1 => "rows".into(),
-                2 => format!("(rows | sort(attribute=\"{}\"))", self.pick(&["id", "name", "score", "tag", "nope", "id.x"])),
+                2 => format!("(rows | sort(attribute=\"{}\"))", self.pick2(&["id", "name", "score", "tag"], &["nope", "id.x"])),
                 3 => "(rows | unique)".into(),
                 4 => "(rows | reverse)".into(),
                 _ => "(rows | group_by(attribute=\"tag\") | get(key=\"x\", default=[]))".into(),
@@ -709,7 +743,7 @@ impl<'a> G<'a> {
                 2 => "one".into(),
                 3 => format!("{{\"a\": {}, \"b\": {}}}", self.e(Ty::Int, d.min(1)), self.e(Ty::Str, 0)),
                 4 => format!("{{...mp, \"a\": {}}}", self.int_atom()),
-                5 => format!("(rows | group_by(attribute=\"{}\"))", self.pick(&["tag", "id", "name", "score", "nope"])),
+                5 => format!("(rows | group_by(attribute=\"{}\"))", self.pick2(&["tag", "id", "name"], &["score", "nope"])),
                 6 => "rows[0]".into(),
                 7 => format!("{{{}: \"i\", true: \"b\", \"s\": {}}}", self.rng.range(0, 3), self.float_atom()),
                 _ => "{}".into(),
@@ -720,6 +754,18 @@ impl<'a> G<'a> {
     /// a component call used as an expression
     fn call(&mut self, d: u32) -> String {
         let d1 = d.min(1);
+        if self.clean {
+            return match self.rng.below(8) {
+                0 => format!("<twice x={{{}}}/>", self.e_of(&[Ty::Int, Ty::Float, Ty::Str, Ty::Bool], d1)),
+                1 => format!("<box title={{{}}} n={{{}}}/>", self.e(Ty::Str, d1), self.e(Ty::Int, d1)),
+                2 => format!("<box title=\"T\" flag={{{}}} extra={{{}}} more=\"m\"/>", self.e(Ty::Bool, d1), self.any(d1)),
+                3 => format!("<calc a={{{}}} b={{{}}}/>", self.num(d1), self.num(d1)),
+                4 => format!("<rec k={{{}}}/>", self.pick(&["0", "3", "5", "z"])),
+                5 => format!("<nest v={{{}}}/>", self.e(Ty::Str, d1)),
+                6 => format!("<box {{...{}}}/>", self.pick(&["{\"title\": \"sp\", \"n\": 4}", "{\"title\": s, \"zz\": [1]}"])),
+                _ => format!("<lister items={{{}}} sep={{{}}}/>", self.e_of(&[Ty::ArrInt, Ty::ArrStr, Ty::ArrNum], d1), self.kw_str()),
+            };
+        }
         match self.rng.below(12) {
             0 => format!("<twice x={{{}}}/>", self.any(d1)),
             1 => format!("<box title={{{}}} n={{{}}}/>", self.e(Ty::Str, d1), self.e(Ty::Int, d1)),
@@ -924,7 +970,7 @@ fn hand_programs() -> Vec<&'static str> {
         "{{ 9007199254740993 == 9007199254740992.0 }} {{ 9007199254740993 > 9007199254740992.0 }} {{ m > g }} {{ m == m * 1.0 }}",
         "{{ 9223372036854775807 * 9223372036854775807 * 2 }}",
         "{{ 9223372036854775807 * 9223372036854775807 * 4 }}",
-        "{{ 18446744073709551615 + 1 }} {{ -9223372036854775807 - 2 }} {{ 18446744073709551615 == 18446744073709551615.0 }}",
+        "{{ 9223372036854775807 + 1 }} {{ -9223372036854775807 - 2 }} {{ 9223372036854775807 == 9223372036854775807.0 }} {{ 9223372036854775807 < 9223372036854775808.0 }}",
         "{{ 2 ** 127 }}",
         "{{ 2 ** 126 * 2 - 1 }} {{ (-2) ** 127 }} {{ 0 ** 0 }} {{ 1 ** 4294967295 }}",
     ]
@@ -1099,6 +1145,7 @@ pub fn run(args: &Args, rng: &mut Rng, meta: &mut Meta) {
         let name = if k % 3 == 0 { "main.txt" } else { "main.html" };
         let with_lib = k % 4 != 3;
         let mut g = G::new(rng, with_lib, with_lib);
+        g.clean = k % 5 != 4;
         let depth = 1 + (k % 3) as u32;
         let src = if with_lib && k % 7 == 0 {
             format!("{{% extends \"base.html\" %}}{{% block body %}}{}{{{{ super() }}}}{{% endblock %}}{{% block foot %}}{}{{% endblock %}}", g.body(depth), g.body(1))
@@ -1114,6 +1161,71 @@ pub fn run(args: &Args, rng: &mut Rng, meta: &mut Meta) {
         let start = rng.below(ctxs.len());
         let pick: Vec<_> = ctxs.iter().cycle().skip(start).take(if thorough { 3 } else { 2 }).cloned().collect();
         emit(&mut sink, meta, &mut stats, "gen", &format!("gen#{k}"), &tpls, html, &entries, &pick, &[], true, false);
+    }
+
+    // ---- printing of floats: random bit patterns and the boundaries of the notation switch
+    let n_fl = if thorough { 120 } else { 24 };
+    for k in 0..n_fl {
+        let mut fl: Vec<Value> = Vec::new();
+        for j in 0..30 {
+            let x = match (k + j) % 6 {
+                0 => f64::from_bits(rng.next()),
+                1 => {
+                    // around a power of ten
+                    let p = rng.range(-25, 25) as i32;
+                    let base = 10f64.powi(p);
+                    f64::from_bits((base.to_bits() as i64 + rng.range(-3, 3)) as u64)
+                }
+                2 => {
+                    // around a power of two (binade boundary: asymmetric rounding interval)
+                    let e = rng.range(-1074, 1023) as i32;
+                    let base = if e < -1022 { f64::from_bits(1u64 << (e + 1074)) } else { f64::from_bits(((e + 1023) as u64) << 52) };
+                    f64::from_bits((base.to_bits() as i64 + rng.range(-2, 2)).max(1) as u64)
+                }
+                3 => (rng.range(-1_000_000, 1_000_000) as f64) / [1.0, 10.0, 100.0, 1000.0, 8.0, 3.0][rng.below(6)],
+                4 => f64::from_bits(rng.next() & 0x000f_ffff_ffff_ffff | ((rng.range(960, 1090) as u64) << 52)) * if rng.chance(1, 2) { -1.0 } else { 1.0 },
+                _ => *rng.pick(&[1e16, 9999999999999998.0, 1e15, 1.0e-4, 0.00009999999999999999, 1e-5, 123456789012345680.0, 0.1, 0.2, 0.30000000000000004,
+                                 5e-324, 2.2250738585072014e-308, f64::MAX, f64::MIN_POSITIVE, 4.35, 1e23, 8.41e21, 9.5, 0.5, 1e22, 1e21, 2.5e-5]),
+            };
+            fl.push(Value::from(x));
+        }
+        let c = vec![("fl".to_string(), arr(fl)), ("n".to_string(), Value::from(k as u64))];
+        let src = "{{ fl }}|{% for x in fl %}{{ x }};{% endfor %}|{{ fl | join(sep=\" \") }}|{{ {\"k\": fl[0]} }}|{{ fl[1] ~ \"\" }}|{{ fl[2] | str | length }}";
+        emit(&mut sink, meta, &mut stats, "floats", &format!("floats#{k}"), &[("f.txt".to_string(), src.to_string())], html,
+             &[("f.txt".to_string(), None)], &[(format!("floats#{k}"), c)], &[], true, false);
+    }
+
+    // ---- integer arithmetic and comparison at the edges of the representations
+    let n_big = if thorough { 150 } else { 30 };
+    let edge: Vec<Value> = vec![
+        Value::from(i128::MAX), Value::from(i128::MIN), Value::from(i128::MIN + 1), Value::from(u128::MAX), Value::from(u64::MAX),
+        Value::from(i64::MAX), Value::from(i64::MIN), Value::from(-1i64), Value::from(0u64), Value::from(1u64), Value::from(2u64),
+        Value::from(1i128 << 64), Value::from(-(1i128 << 64)), Value::from((1i128 << 126) - 1), Value::from(3037000500i64),
+        Value::from(13043817825332782212i128), Value::from(-7i64), Value::from(10u64), Value::from(1e19), Value::from(-0.5),
+        Value::from(170141183460469231731687303715884105728.0), Value::from(9007199254740993i64), Value::from(9007199254740992.0),
+    ];
+    for k in 0..n_big {
+        let a = rng.pick(&edge).clone();
+        let b = rng.pick(&edge).clone();
+        let c = vec![("a".to_string(), a), ("b".to_string(), b)];
+        let op = *rng.pick(&["+", "-", "*", "//", "%", "/"]);
+        let src = format!(
+            "{{{{ a {op} b }}}}|{{{{ a < b }}}}{{{{ a <= b }}}}{{{{ a == b }}}}{{{{ a != b }}}}{{{{ a >= b }}}}{{{{ a > b }}}}|{{{{ [a, b] | sort }}}}|{{{{ [a, b, a] | unique }}}}|{{{{ a in [b] }}}}|{{{{ {{\"k\": a}} }}}}|{{{{ -a }}}}"
+        );
+        emit(&mut sink, meta, &mut stats, "edges", &format!("edges#{k}"), &[("e.txt".to_string(), src)], html,
+             &[("e.txt".to_string(), None)], &[(format!("edges#{k}"), c)], &[], true, false);
+    }
+    for k in 0..n_big {
+        // one operator per template so that an error of one does not hide the others
+        let a = rng.pick(&edge).clone();
+        let b = rng.pick(&edge).clone();
+        let c = vec![("a".to_string(), a), ("b".to_string(), b)];
+        let e = *rng.pick(&["a + b", "a - b", "a * b", "a // b", "a % b", "a / b", "-a", "a ** 2", "a ** 3", "a | abs", "a | int", "a | float", "a is odd",
+                            "a is divisible_by(divisor=b)", "a | pluralize", "range(start=a, end=b) | length", "a | round", "[a, b] | join(sep=\"_\")", "a | str"]);
+        // f64::powf is not modelled: `**` only on integer bases
+        let e = if e.contains("**") && c[0].1.is_f64() { "a * a" } else { e };
+        emit(&mut sink, meta, &mut stats, "edges", &format!("edge1#{k}"), &[("e.txt".to_string(), format!("{{{{ {e} }}}}"))], html,
+             &[("e.txt".to_string(), None)], &[(format!("edge1#{k}"), c)], &[], true, false);
     }
 
     // ---- the World0-subset generators, now in the full world and under the richer contexts
